@@ -7,6 +7,7 @@ func init() {
 	vxRegister("H08aT", H08aT)
 	vxRegister("H08eQ", H08eQ)
 	vxRegister("H08eT", H08eT)
+	vxRegister("H08hQ", H08hQ)
 }
 
 // L1 recorders: the tokenizer state machine talks to the per-word pipeline only through
@@ -110,6 +111,30 @@ func h08a(w int, thorough bool) {
 	vxTokenizeBytes(ref)
 	vxSameRecording("stream", vxRecF, vxRecA, f1, a1)
 	vxRemoveRecorders()
+	vxCover("end")
+}
+
+// H08hQ: the deferred end-of-line state (a word hyphenated across a line break) while the read
+// buffer is refilled: "ab-" LF + 2 symbolic bytes + "cd" or " cd", padded so that the symbolic bytes sit
+// before, across and after the 1020/1024 boundary.  The whole real pipeline runs on both sides (no
+// recorders), so a multi-byte rune decoded twice after the carry-over shows as a different document.
+func H08hQ() {
+	content := append([]byte("ab-\n"), vxBytes(2)...)
+	// with and without further indentation after the symbolic bytes: a rune that ends the deferred
+	// state early only matters when white space follows
+	content = append(content, []string{"cd tail of the line\nzz\n", " cd tail of the line\nzz\n"}[vxChoice(2)]...)
+	pad := 1013 + vxChoice(9)
+	data := make([]byte, 0, pad+len(content))
+	for i := 0; i < pad; i++ {
+		data = append(data, ' ')
+	}
+	data = append(data, content...)
+	r := &vxChunkReader{data: data, failAt: -1}
+	r.chunks = []int{[]int{1, 4096}[vxChoice(2)], 4096}
+	r.eofWithData = vxBool()
+	got, err := vxTokenize(r)
+	vxAssert("no-error", err == nil)
+	vxSameDoc("stream-hyphen", vxTokenizeBytes(content), got, true)
 	vxCover("end")
 }
 
